@@ -619,6 +619,14 @@ func (x *Exec) freshRef(st *State, name string) string {
 	return ref
 }
 
+// growAlloc: an unknown number of objects may have been allocated (by a callee): the allocated set becomes an
+// arbitrary superset.
+func (x *Exec) growAlloc(st *State) {
+	na := x.fresh(st, "alloc", "(Array Int Bool)")
+	st.assume(fmt.Sprintf("(forall ((r Int)) (! (=> (select %s r) (select %s r)) :pattern ((select %s r))))", st.allocT, na, na))
+	st.allocT = na
+}
+
 // markAllocated records that ref exists (is distinct from anything allocated later).
 func (x *Exec) markAllocated(st *State, ref string) {
 	if ref == "0" {
